@@ -59,6 +59,14 @@ func init() {
 	)}
 }
 
+func init() {
+	knownRepros["F-PATHTYPE"] = knownRepro{"history:C01", hist(bothClients,
+		model.Op{Kind: "CreateTable", Schema: sTable("tbl", false)},
+		model.Op{Kind: "Put", Table: "tbl", Item: pkItem("a", model.Item{"a": model.Str("x")})},
+		model.Op{Kind: "Scan", Table: "tbl", Filter: "attribute_not_exists(a.b)"},
+	)}
+}
+
 // TestGenKnown writes the repro files.
 func TestGenKnown(t *testing.T) {
 	if os.Getenv("VERIF_GEN_KNOWN") == "" {
